@@ -324,17 +324,24 @@ def rnd_addr_text(rng):
     return "".join(chr(rng.randrange(1, 256)) for _ in range(n)), "garbage"
 
 
-def valid_line(rng):
-    """a mostly valid candidate line as token list (after the prefix)"""
-    ip = socket.inet_ntoa(struct.pack(">I", rnd_v4(rng))) if rng.random() < 0.6 else rnd_v6_text(rng)
-    tr = rng.choice(["UDP", "TCP", "udp", "tcp", "Tcp", "TCP-ACT", "TCP-PASS", "TCP-SO", "tcp-act", "tcp-so", "TCP-", "SCTP", "UDPX", "ＵＤＰ"])
-    toks = [rnd_foundation(rng), str(rng.choice(COMPS + [rng.randrange(1, 257)])), tr, str(rng.choice(PRIOS + [rng.randrange(2 ** 32)])), ip,
+def valid_line(rng, strict=False, comps=None):
+    """a mostly valid candidate line as token list (after the prefix); strict = always valid"""
+    def ip():
+        if rng.random() < 0.6:
+            return socket.inet_ntoa(struct.pack(">I", rnd_v4(rng)))
+        if strict or rng.random() < 0.8:
+            return socket.inet_ntop(socket.AF_INET6, struct.pack(">8H", *rnd_v6(rng)))
+        return rnd_v6_text(rng)
+    if strict or rng.random() < 0.85:
+        tr = rng.choice(["UDP", "TCP", "TCP", "udp", "tcp", "Tcp", "TCP-ACT", "TCP-PASS", "TCP-SO", "tcp-act", "tcp-so", "Tcp-Pass"])
+    else:
+        tr = rng.choice(["TCP-", "SCTP", "UDPX", "ＵＤＰ", "", "UD", "TCP-ACTIVE"])
+    toks = [rnd_foundation(rng), str(rng.choice(comps or (COMPS + [rng.randrange(1, 257)]))), tr, str(rng.choice(PRIOS + [rng.randrange(2 ** 32), rng.randrange(1, 2 ** 31)])), ip(),
             str(rng.choice(PORTS + [rng.randrange(65536)])), "typ", rng.choice(["host", "srflx", "prflx", "relay", "relay", "host"])]
     if rng.random() < 0.5:
-        rip = socket.inet_ntoa(struct.pack(">I", rnd_v4(rng))) if rng.random() < 0.6 else rnd_v6_text(rng)
-        toks += ["raddr", rip, "rport", str(rng.choice(PORTS + [rng.randrange(65536)]))]
-    if tr.upper() == "TCP" and rng.random() < 0.75 or rng.random() < 0.1:
-        toks += ["tcptype", rng.choice(["active", "passive", "so", "ACTIVE", "So", "actpass", ""])]
+        toks += ["raddr", ip(), "rport", str(rng.choice(PORTS + [rng.randrange(65536)]))]
+    if tr.upper() == "TCP" and (strict or rng.random() < 0.75) or (not strict and rng.random() < 0.1):
+        toks += ["tcptype", rng.choice(["active", "passive", "so", "ACTIVE", "So"] + ([] if strict else ["actpass", ""]))]
     if rng.random() < 0.3:
         toks += rng.choice([["generation", "0"], ["ufrag", "abcd"], ["network-id", "1"], ["network-cost", "10"], ["x", "y", "z", "w"]])
     return toks
@@ -345,11 +352,11 @@ JUNK = ["", "typ", "raddr", "rport", "tcptype", "host", "-1", "-0", "+5", "0", "
         "65536", "65535", "-65535", "0x10", "1e3", " ", "\t", "\t5", "\r", "5\r", "a=candidate:", "typ host", "::", "1.2.3.4", "%", "\x7f", "\xff\xfe", "A" * 70, "9" * 40]
 
 
-def mutate_line(rng):
-    toks = valid_line(rng)
+def mutate_line(rng, comps=None):
+    toks = valid_line(rng, comps=comps)
     prefix = "a=candidate:"
     kind = "line-valid"
-    for _ in range(rng.choice([0, 1, 1, 1, 2, 2, 3, 5])):
+    for _ in range(rng.choice([0, 0, 1, 1, 1, 1, 2, 3])):
         kind = "line-mutated"
         r = rng.random()
         i = rng.randrange(len(toks)) if toks else 0
@@ -404,7 +411,7 @@ def rnd_streams(rng):
             cs, seen = [], set()
             for _ in range(k):
                 for _try in range(20):
-                    t = rnd_cand(rng, comp=ci if rng.random() < 0.9 else rng.choice([1, 2, 3, 4, 256]))
+                    t = rnd_cand(rng, comp=ci if rng.random() < 0.98 else rng.choice([1, 2, 3, 4, 256]))
                     c = parse_cand(t)
                     key = (c["addr"][0], c["addr"][1], c["addr"][2] or 9, c["transport"])
                     if key not in seen:
@@ -421,21 +428,26 @@ def rnd_streams(rng):
 
 
 def sdp_text(rng):
-    """a plausible SDP block as list of lines, then mutated"""
+    """a plausible SDP block (mostly valid, then lightly mutated); returns (text, number of m= lines)"""
     lines = []
-    ns = rng.choice([1, 1, 2, 3, 5])
+    ns = rng.choice([1, 1, 2, 2, 3, 4])
     for s in range(ns):
-        if rng.random() < 0.9:
+        if rng.random() < 0.95:
             lines.append("m=%s %d ICE/SDP" % (rng.choice(["audio", "video", "-", ""]), rng.randrange(65536)))
             lines.append("c=IN IP4 1.2.3.4")
-        if rng.random() < 0.9:
+            if rng.random() < 0.3:
+                lines.append("a=rtcp:%d" % rng.randrange(65536))
+        if rng.random() < 0.95:
             lines.append("a=ice-ufrag:" + rnd_cred(rng, 300 if rng.random() < 0.1 else 30))
-        if rng.random() < 0.9:
+        if rng.random() < 0.95:
             lines.append("a=ice-pwd:" + rnd_cred(rng, 300 if rng.random() < 0.1 else 30))
-        for _ in range(rng.choice([0, 1, 2, 4])):
-            l, _k = mutate_line(rng) if rng.random() < 0.4 else ("a=candidate:" + " ".join(valid_line(rng)), "")
+        for _ in range(rng.choice([0, 1, 2, 2, 4])):
+            if rng.random() < 0.15:
+                l, _k = mutate_line(rng, comps=[1, 1, 1, 2])
+            else:
+                l = "a=candidate:" + " ".join(valid_line(rng, strict=True, comps=[1, 1, 1, 1, 2, 2, 3]))
             lines.append(l)
-    for _ in range(rng.choice([0, 0, 1, 2, 3])):
+    for _ in range(rng.choice([0, 0, 0, 1, 1, 2])):
         if not lines:
             break
         r = rng.random()
@@ -451,8 +463,9 @@ def sdp_text(rng):
             lines.insert(i, rng.choice(["", "a=", "m=", "a=ice-ufrag:", "a=ice-pwd:", "a=candidate:", "a=rtcp:5", "v=0", "a=ice-ufrag", "\r", "a=end-of-candidates"]))
         else:
             lines[i] = mutate_text(rng, lines[i])
-    nl = "\r\n" if rng.random() < 0.05 else "\n"
-    return nl.join(lines) + (nl if rng.random() < 0.8 else "")
+    nl = "\r\n" if rng.random() < 0.03 else "\n"
+    text = nl.join(lines) + (nl if rng.random() < 0.8 else "")
+    return text, sum(1 for l in text.split("\n") if l.startswith("m="))
 
 
 def gen_cases(rng, n):
@@ -495,7 +508,10 @@ def gen_cases(rng, n):
         if r < 0.22:
             add("G " + rnd_cand(rng, weird=rng.random() < 0.15), "cand-random")
         elif r < 0.42:
-            l, kind = mutate_line(rng)
+            if rng.random() < 0.25:
+                l, kind = "a=candidate:" + " ".join(valid_line(rng, strict=True)), "line-valid"
+            else:
+                l, kind = mutate_line(rng)
             add("P " + hx(l), kind)
         elif r < 0.62:
             s, kind = rnd_addr_text(rng)
@@ -523,10 +539,11 @@ def gen_cases(rng, n):
             s, _spec = rnd_streams(rng)
             add("S " + s, "agent-sdp")
         elif r < 0.94:
-            add("R " + hx(sdp_text(rng)), "stream-sdp-mutated")
+            add("R " + hx(sdp_text(rng)[0]), "stream-sdp-mutated")
         else:
-            ns = rng.choice([1, 1, 2, 3])
-            add("Q %d %s %s" % (ns, " ".join(str(rng.choice([1, 2, 3])) for _ in range(ns)), hx(sdp_text(rng))), "agent-sdp-mutated")
+            text, nm = sdp_text(rng)
+            ns = max(1, nm) if rng.random() < 0.9 else rng.choice([1, 2, 3])
+            add("Q %d %s %s" % (ns, " ".join(str(rng.choice([4, 3, 3, 2, 1])) for _ in range(ns)), hx(text)), "agent-sdp-mutated")
     return cs
 
 
